@@ -59,18 +59,34 @@ impl RemoteRef {
     pub uninterp spec fn rid(&self) -> u64;
     #[verifier::external_body]
     pub fn get_id(&self) -> ActorId { unimplemented!() }
+    #[verifier::external_body]
+    pub fn get_cell(&self) -> (r: ActorCell) ensures r.rid() == self.rid() { unimplemented!() }
 }
+/// the cell of a proxy: which remote pid it stands for
+#[verifier::external_body] pub struct ActorCell { _p: u8 }
+impl ActorCell { pub uninterp spec fn rid(&self) -> u64; }
+pub open spec fn rids(c: Seq<ActorCell>) -> Seq<u64> { c.map_values(|x: ActorCell| x.rid()) }
 /// HashMap<u64, ActorRef<RemoteActorMessage>> stand-in: `@` = the remote pids that have a proxy
 #[verifier::external_body] pub struct RemoteActors { _p: u8 }
 impl View for RemoteActors { type V = Set<u64>; uninterp spec fn view(&self) -> Set<u64>; }
+impl RemoteActors {
+    /// A-std (HashMap::get): the proxy recorded for `k`, if any; it stands for `k` (unit proxytable keeps the table keyed by pid)
+    #[verifier::external_body]
+    pub fn get(&self, k: &u64) -> (r: Option<&RemoteRef>)
+        ensures r is Some <==> self@.contains(*k), r matches Some(x) ==> x.rid() == *k,
+    { unimplemented!() }
+}
 } // verus!
 
 pub mod vocab {
     use super::*;
     verus! {
     pub enum Effect {
-        /// get_or_spawn_remote_actor(pid, name): a proxy for that remote actor exists afterwards, unless spawning failed
-        SpawnRemote(u64, Option<String>),
+        /// get_or_spawn_remote_actor(pid, name): a proxy for that remote actor exists afterwards, unless spawning failed (the flag)
+        SpawnRemote(u64, Option<String>, bool),
+        /// the proxies standing for these remote pids joined / left the local process group (scope, group)
+        GroupJoin(String, String, Seq<u64>),
+        GroupLeave(String, String, Seq<u64>),
         /// the proxy of remote pid was taken out of the session's table
         Removed(u64),
         /// that proxy was stopped (and the stop awaited)
@@ -78,10 +94,12 @@ pub mod vocab {
         /// the node server was told that this session is ready
         ServerReady,
     }
-    pub enum Kind { SpawnRemote, Removed, Stopped, ServerReady }
+    pub enum Kind { SpawnRemote, Removed, Stopped, ServerReady, GroupJoin, GroupLeave }
     pub open spec fn kind_of(e: Effect) -> Kind {
         match e {
-            Effect::SpawnRemote(_, _) => Kind::SpawnRemote,
+            Effect::SpawnRemote(_, _, _) => Kind::SpawnRemote,
+            Effect::GroupJoin(_, _, _) => Kind::GroupJoin,
+            Effect::GroupLeave(_, _, _) => Kind::GroupLeave,
             Effect::Removed(_) => Kind::Removed,
             Effect::Stopped(_) => Kind::Stopped,
             Effect::ServerReady => Kind::ServerReady,
@@ -126,7 +144,7 @@ impl NodeSession {
     #[verus_verify(external_body)]
     #[verus_spec(r =>
         with Tracked(log): Tracked<&mut EffectLog>
-        ensures final(log).s == old(log).s.push(Effect::SpawnRemote(actor_pid, actor_name)),
+        ensures final(log).s == old(log).s.push(Effect::SpawnRemote(actor_pid, actor_name, r is Ok)), r matches Ok(p) ==> p.rid() == actor_pid,
             *final(state) == (NodeSessionState { remote_actors: final(state).remote_actors, ..*old(state) }),
             old(state).remote_actors@.subset_of(final(state).remote_actors@),
             r is Ok ==> final(state).remote_actors@.contains(actor_pid))]
@@ -135,5 +153,61 @@ impl NodeSession {
 
 verus! {
 /// what receiving an advertisement looks like: one get-or-spawn per advertised actor, in order
-pub open spec fn spawn_effects(a: Seq<Actor>) -> Seq<Effect> { a.map_values(|x: Actor| Effect::SpawnRemote(x.pid, x.name)) }
+/// the `n` effects from position `at` on are the get-or-spawn requests for `a[0..n)`, in order
+pub open spec fn requested(l: Seq<Effect>, at: int, a: Seq<Actor>, n: int) -> bool {
+    l.len() >= at + n && forall|i: int| 0 <= i < n ==> (#[trigger] l[at + i] matches Effect::SpawnRemote(p, nm, _) && p == a[i].pid && nm == a[i].name)
+}
+/// pid `k` is among the first `n` listed actors
+pub open spec fn listed(a: Seq<Actor>, n: int, k: u64) -> bool { exists|i: int| 0 <= i < n && (#[trigger] a[i]).pid == k }
+/// one of those `n` requests, for pid `k`, succeeded
+pub open spec fn got(l: Seq<Effect>, at: int, n: int, k: u64) -> bool {
+    exists|i: int| 0 <= i < n && (#[trigger] l[at + i] matches Effect::SpawnRemote(p, _, ok) && ok && p == k)
+}
+pub proof fn lemma_rids_push(c: Seq<ActorCell>, x: ActorCell)
+    ensures forall|k: u64| #[trigger] rids(c.push(x)).contains(k) <==> (rids(c).contains(k) || x.rid() == k)
+{
+    assert(rids(c.push(x)) =~= rids(c).push(x.rid()));
+    assert forall|k: u64| #[trigger] rids(c.push(x)).contains(k) <==> (rids(c).contains(k) || x.rid() == k) by {
+        vstd::seq_lib::lemma_seq_contains_after_push(rids(c), x.rid(), k);
+    }
+}
+/// `got` only looks at the `n` positions from `at` on: it is the same in every log that agrees there
+pub proof fn lemma_got_same(a: Seq<Effect>, b: Seq<Effect>, at: int, n: int)
+    requires 0 <= at, 0 <= n, a.len() >= at + n, b.len() >= at + n, forall|i: int| 0 <= i < n ==> #[trigger] a[at + i] == b[at + i],
+    ensures forall|k: u64| got(a, at, n, k) == got(b, at, n, k)
+{
+    assert forall|k: u64| got(a, at, n, k) == got(b, at, n, k) by {
+        if got(a, at, n, k) { let i = choose|i: int| 0 <= i < n && (#[trigger] a[at + i] matches Effect::SpawnRemote(p, _, ok) && ok && p == k); assert(a[at + i] == b[at + i]); }
+        if got(b, at, n, k) { let i = choose|i: int| 0 <= i < n && (#[trigger] b[at + i] matches Effect::SpawnRemote(p, _, ok) && ok && p == k); assert(a[at + i] == b[at + i]); }
+    }
+}
+pub proof fn lemma_got_step(l: Seq<Effect>, at: int, n: int)
+    requires 0 <= at, 0 <= n, l.len() > at + n,
+    ensures forall|k: u64| got(l, at, n + 1, k) <==> (got(l, at, n, k) || (l[at + n] matches Effect::SpawnRemote(p, _, ok) && ok && p == k))
+{
+    assert forall|k: u64| got(l, at, n + 1, k) <==> (got(l, at, n, k) || (l[at + n] matches Effect::SpawnRemote(p, _, ok) && ok && p == k)) by {
+        if got(l, at, n + 1, k) { let i = choose|i: int| 0 <= i < n + 1 && (#[trigger] l[at + i] matches Effect::SpawnRemote(p, _, ok) && ok && p == k); if i < n { assert(got(l, at, n, k)); } }
+        if got(l, at, n, k) { let i = choose|i: int| 0 <= i < n && (#[trigger] l[at + i] matches Effect::SpawnRemote(p, _, ok) && ok && p == k); assert(0 <= i < n + 1); }
+    }
+}
+pub proof fn lemma_listed_step(a: Seq<Actor>, n: int)
+    requires 0 <= n < a.len(),
+    ensures forall|k: u64| listed(a, n + 1, k) <==> (listed(a, n, k) || a[n].pid == k)
+{
+    assert forall|k: u64| listed(a, n + 1, k) <==> (listed(a, n, k) || a[n].pid == k) by {
+        if listed(a, n + 1, k) { let i = choose|i: int| 0 <= i < n + 1 && (#[trigger] a[i]).pid == k; if i < n { assert(listed(a, n, k)); } }
+        if listed(a, n, k) { let i = choose|i: int| 0 <= i < n && (#[trigger] a[i]).pid == k; assert(0 <= i < n + 1); }
+    }
+}
 } // verus!
+
+#[verus_verify(external_body)]
+#[verus_spec(
+    with Tracked(log): Tracked<&mut EffectLog>
+    ensures final(log).s == old(log).s.push(Effect::GroupJoin(scope, group, rids(cells@))))]
+pub fn vx_pg_join_scoped(scope: String, group: String, cells: Vec<ActorCell>) { unimplemented!() }
+#[verus_verify(external_body)]
+#[verus_spec(
+    with Tracked(log): Tracked<&mut EffectLog>
+    ensures final(log).s == old(log).s.push(Effect::GroupLeave(scope, group, rids(cells@))))]
+pub fn vx_pg_leave_scoped(scope: String, group: String, cells: Vec<ActorCell>) { unimplemented!() }
